@@ -2172,11 +2172,13 @@ class PersistedRDD(RDD):
         return iter(data)
 
     def unpersist(self, blocking=False):
-        if self._cache_manager:
-            self._cache_manager.delete(self._cid)
+        # drop the entries of every partition of this dataset and hand back
+        # the lineage without the persistence step (same contents)
+        cache_manager = self.context._cache_manager
+        for partition in self.partitions():
+            cache_manager.delete((self._rdd_id, partition.index))
 
-        unpersisted_rdd = RDD(self.partitions(), self.context)
-        return unpersisted_rdd
+        return self.prev
 
 
 class EmptyRDD(RDD):
